@@ -95,6 +95,8 @@ structure Tracked where
   dst : String
   born : Int               -- time of emission
   delivered : Bool := false
+  /-- number of housekeeping ticks the receiver had seen when it first accepted the datagram -/
+  deliveredTick : Option Nat := none
 
 structure NRef where
   nodes : List (Nat × NodeS) := []
@@ -108,6 +110,7 @@ structure NRef where
   done : List (String × String × Bool) := []
   /-- datagrams sealed by a key holder with a raw plaintext (`nseal`): outside the scope of the outsider properties -/
   keyholder : List Bytes := []
+  marks : List (String × Nat) := []
 
 /-- the sessions `a` and `b` hold for each other stem from the same handshake attempt: the last two completions between
     them are the initiator's (at the pong) followed by the responder's (at the peng).  While only one end has completed a
@@ -209,11 +212,23 @@ def receiveChecks (r : NRef) (port : Nat) (src : String) (d : Bytes) (attack : B
       else if !devs.isEmpty && (match tr with
           | some t => devs ≠ [t.frame] || !(before.peers.any (fun p => p.addr = src)) || t.dst ≠ me
           | none => true) then some "C10 interface write that is not the payload an established peer sent (or not byte-identical)"
+      -- C13 / C10: in a learning mode the source address of a delivered frame is (re-)learned for the peer it came from (last writer wins)
+      else if !devs.isEmpty && (modeFlags (r.cfgOf port "mode") (r.cfgOf port "dev" = "tap")).1 && (match tr with
+          | some t =>
+            (match (if r.cfgOf port "dev" = "tap" then VpnCloud.Spec.C19.frameRef t.frame else VpnCloud.Spec.C19.packetRef t.frame) with
+             | some (sa, _) => !(after.cache.any (fun (a, p, _) => a = sa && p = src))
+             | none => false)
+          | none => false) then some "C13/C10 the source address of a received frame was not learned for the peer it came from"
       else if !genuine then
         -- C08 / C01 / C09: a forged datagram leaves nothing behind
         if !outs.isEmpty then some "C01 reply to a datagram that fails verification"
         else if stripDrop after.raw ≠ stripDrop before.raw then some "C08 a datagram that fails verification left state behind"
         else none
+      else if attack && !devs.isEmpty && (match tr with
+          | some t => (match t.deliveredTick with | some k => tickOf r port ≥ k + 2 | none => false)
+          | none => false) then
+        -- C03: a datagram accepted before the tick preceding the most recent tick is dead
+        some "C03 a replayed datagram was accepted although the receiver has ticked twice since it first accepted it"
       else if attack then
         -- C09: replays of genuine datagrams never cost an established connection or its routes
         let lost := before.peers.filter (fun p => !(after.peers.any (fun q => q.addr = p.addr && q.nodeId = p.nodeId)))
@@ -240,7 +255,8 @@ def receiveChecks (r : NRef) (port : Nat) (src : String) (d : Bytes) (attack : B
         if !after.pending.contains src && after.peers.any (fun p => p.addr = src) && (stage = 2 || stage = 3) then [(me, src, stage = 2)] else []
       | none => []
     let r2 := { r1 with done := r1.done ++ completed,
-                        tracked := r1.tracked.map (fun t => if t.bytes = d && !devs.isEmpty then { t with delivered := true } else t) }
+                        tracked := r1.tracked.map (fun t => if t.bytes = d && !devs.isEmpty then
+                          { t with delivered := true, deliveredTick := match t.deliveredTick with | some k => some k | none => some (tickOf r port) } else t) }
     (r2, match verdict with | some e => "FAIL " ++ e | none => "ok")
 
 def nodeRefStep (r : NRef) (t : List String) (obs : String) : NRef × String :=
@@ -256,6 +272,7 @@ def nodeRefStep (r : NRef) (t : List String) (obs : String) : NRef × String :=
     let outs := outsOfObs ires
     let r1 := if istate = "" then r else r.setNode p (parseNodeS istate)
     ({ r1 with wire := r1.wire ++ outs, queue := r1.queue ++ outs, keyholder := r1.keyholder ++ outs.map (fun (_, _, b) => b) }, "-")
+  | ["nmark", name] => (if r.wire.isEmpty then r else { r with marks := (name, r.wire.length - 1) :: r.marks }, "-")
   | ["ndropfrom", i] => ({ r with queue := r.queue.filter (fun (s, _, _) => s ≠ s!"p{i}") }, "-")
   | ["ndropfrom", i, j] => ({ r with queue := r.queue.filter (fun (s, d, _) => !(s = s!"p{i}" && d = s!"p{j}")) }, "-")
   | ["nfake", i, a, pt] =>
@@ -334,6 +351,10 @@ def nodeRefStep (r : NRef) (t : List String) (obs : String) : NRef × String :=
         | none =>
           -- C15: silent peers are gone, with their routes
           if after.peers.any (fun q => q.timeout < r.now) then some "C15 a peer whose timeout has passed survived housekeeping"
+          -- C09 / C12: housekeeping removes routes only when they expire or their peer goes
+          else if before.claims.any (fun (p, rg, to) => to ≥ r.now && after.peers.any (fun q => q.addr = p) &&
+              !(after.claims.any (fun (p', rg', _) => p' = p && rg' = rg))) then
+            some "C09/C12 housekeeping removed an unexpired route of a peer that is still connected"
           -- C15: announcement interval
           else if after.next ≠ before.next || before.next ≤ r.now then
             let d := after.next - r.now
@@ -359,7 +380,7 @@ def nodeRefStep (r : NRef) (t : List String) (obs : String) : NRef × String :=
         receiveChecks r port src d true ires istate
       | _, _, _ => (r, "-")
     else if op = "nreplay" then
-      match (k.drop 1).toString.toNat?, (muts.head?).bind String.toNat?, muts[1]? with
+      match (if k.startsWith "m:" then r.marks.lookup (k.drop 2).toString else (k.drop 1).toString.toNat?), (muts.head?).bind String.toNat?, muts[1]? with
       | some w, some port, some src =>
         match r.wire[w]? with
         | none => (r, "-")
@@ -375,7 +396,14 @@ def nodeRefStep (r : NRef) (t : List String) (obs : String) : NRef × String :=
         match r.node a with
         | some n => if n.peers.any (fun q => q.addr = s!"p{b}" && q.ready) then none else some s!"{a}->{b}"
         | none => some s!"{a}->{b}"))
-      if k = "own" then
+      if k = "keychange" then
+        -- nexpect keychange <a> <b> <from>: payload datagrams a -> b emitted at or after time <from> were sealed under at least two different key ids
+        match muts with
+        | [a, b, since] =>
+          let ids := ((r.tracked.filter (fun t => t.src = s!"p{a}" && t.dst = s!"p{b}" && t.born ≥ (since.toInt?.getD 0))).map (fun t => t.bytes.headD 0)).eraseDups
+          (r, if ids.length ≥ 2 then "ok" else s!"FAIL C07 sealing key of {a}->{b} was not replaced since t={since}: key ids in use {ids}")
+        | _ => (r, "-")
+      else if k = "own" then
         -- nexpect own <port> <addr>: an address that a peer listed under the node's own identity has been adopted as own
         match muts with
         | [p, a] =>
